@@ -352,7 +352,9 @@ Fixpoint reorder (fuel : nat) (l : list drule) : list drule :=
     filter (fun x => rallow (drl x)) run ++ filter (fun x => negb (rallow (drl x))) run ++ reorder f (snd (span_blk (dblk d) l))
   | _, _ => []
   end.
-Definition compiled_order (l : list drule) : list drule := if parser_acl_grants_first then reorder (length l) l else l.
+Definition compiled_order_gen (grants_first : bool) (l : list drule) : list drule :=
+  if grants_first then reorder (length l) l else l.
+Definition compiled_order : list drule -> list drule := compiled_order_gen parser_acl_grants_first.
 
 (* NewRuleAll: the operations of the first type, in name order, among the types the workspace sees
    that the filter matches *)
@@ -361,6 +363,17 @@ Definition eff_rule (S : schema) (d : drule) : rule :=
   then mkRule (match find (fmatch (rflt (drl d))) (vis_types S (dws d)) with Some t => taclops t | None => [] end)
               (rallow (drl d)) (rflt (drl d)) (rfields (drl d)) (rprin (drl d))
   else drl d.
+(* NewRuleAll as repaired (C13-F5) accepts an ALL rule only when every type its filter matches, among
+   those the workspace sees, has the same ACL operations; `uniform_required` = the shape found in the source *)
+Definition uniform (S : schema) (d : drule) : bool :=
+  match filter (fmatch (rflt (drl d))) (vis_types S (dws d)) with
+  | [] => true
+  | t0 :: ts => forallb (fun t => list_eqb N.eqb (taclops t) (taclops t0)) ts
+  end.
+Definition accepted_gen (uniform_required : bool) (S : schema) (d : drule) : bool :=
+  negb (dall d) || negb uniform_required || uniform S d.
+Definition accepted : schema -> drule -> bool := accepted_gen acl_all_requires_uniform_ops.
+
 (* the schema the code decides by: every workspace holds its declared rules in declaration order *)
 Definition install (S : schema) (decl : list drule) : schema :=
   mkSchema (stypes S)
@@ -414,6 +427,8 @@ Definition agrees (t : trace) : bool :=
   forallb (fun w => list_eqb rule_eqb (wacl w)
                       (match find (fun p => fst p =? wname w) (tr_rb t) with Some p => snd p | None => [] end)) (swss S)
   && list_eqb rule_eqb (map (eff_rule (tr_schema t)) (compiled_order (tr_decl t))) (tr_rbapp t)
+  (* every declared rule is one the builder accepts (the refused ones are not declared) *)
+  && forallb (accepted (tr_schema t)) (tr_decl t)
   && forallb (fun q => outcome_eqb (is_allowed S (tr_sys t) (qws q) (qop q) (qres q) (qflds q) (qroles q)) (qout q)) (tr_queries t)
   && forallb (fun a => option_eqb lN_eqb (rra_any acl_rra_closure S (arole a) (aws a)) (Some (aout a))) (tr_rra t)
   && forallb (fun p => option_eqb pub_eqb (published S (tr_sys t) (pws p) (prole p)) (Some (pout p))) (tr_pub t).
